@@ -240,7 +240,8 @@ class time_limit:
     """with time_limit(5): call()   -- raises ImplTimeout (main thread only)."""
 
     def __init__(self, seconds):
-        self.seconds = seconds
+        # VERIF_TIME_FACTOR stretches every limit (reproducing a run on a busy machine)
+        self.seconds = seconds * float(os.environ.get("VERIF_TIME_FACTOR", "1") or 1)
 
     def _handler(self, signum, frame):
         raise ImplTimeout("no return within %ss" % self.seconds)
